@@ -10,7 +10,7 @@ from automat import NoTransition
 from wormhole._key import derive_phase_key, decrypt_data, CryptoError
 from wormhole.util import bytes_to_dict, dict_to_bytes
 
-from .worlds.mailbox import World, MACHINES
+from .worlds.mailbox import World, MACHINES, big_body
 
 WORDS = ["purple-sausages", "acrobat-seabird", "tiger-unicorn"]
 
@@ -201,6 +201,7 @@ class Observer:
                                   terminator=st["T"], side=c.side,
                                   opened_by_client=sorted({m["mailbox"] for m in self.W.sent[self.ci] if m.get("type") == "open"}),
                                   sent_types=[m.get("type") for m in self.W.sent[self.ci]],
+                                  close_moods=[m.get("mood") for m in self.W.sent[self.ci] if m.get("type") == "close"],
                                   claimed_names=sorted({m.get("nameplate") for m in self.W.sent[self.ci] if m.get("type") == "claim"}))
 
     _was_closing = False
@@ -212,6 +213,10 @@ class Observer:
         k = op[0]
         if k == "server_welcome_error":
             return W.server_welcome_error(op[1])
+        if k == "msgid_collide":
+            # the two random bytes of a message id come out equal from now on with probability op[1]
+            W.msgid_collide = op[1]
+            return "ok"
         if k == "pump":
             return self.pump()
         if k == "finish":
@@ -325,7 +330,7 @@ class Observer:
             elif name == "input_code":
                 c.helper = w.input_code()
             elif name == "send":
-                w.send_message(bytes.fromhex(args[0]) if args[0] != "-" else b"")
+                w.send_message(big_body(args[0]))
             elif name == "close":
                 w.close()
             else:
@@ -731,6 +736,26 @@ def connection_corpus():
     out.append(dict(ops=both + [["ws_closing", 0], ["api", 0, "send", "00"], ["api", 0, "send", "0101"], ["drop", 0], ["open", 0], ["pump"],
                                 ["api", 0, "send", "020202"], ["pump"], ["api", 0, "close"], ["pump"], ["svc_stopped", 0], ["finish"]],
                     npeers=1, profile="conn:sends-in-closing-window"))
+    # large application messages (the mailbox protocol has no size limit of its own): sent on an established
+    # wormhole, queued before the peer arrives, and queued during an outage
+    big = "x700000"
+    out.append(dict(ops=both + [["api", 0, "send", big], ["pump"], ["api", 1, "send", "x300000"], ["pump"], ["api", 0, "close"], ["pump"],
+                                ["svc_stopped", 0], ["finish"]], npeers=1, profile="conn:large-message:established"))
+    out.append(dict(ops=[["api", 0, "set_code", code], ["open", 0], ["pump"], ["api", 0, "send", big], ["api", 1, "set_code", code], ["open", 1],
+                         ["pump"], ["api", 0, "close"], ["pump"], ["svc_stopped", 0], ["finish"]], npeers=1,
+                    profile="conn:large-message:before-peer"))
+    out.append(dict(ops=both + [["drop", 0], ["api", 0, "send", big], ["open", 0], ["pump"], ["api", 0, "close"], ["pump"],
+                                ["svc_stopped", 0], ["finish"]], npeers=1, profile="conn:large-message:during-outage"))
+    # message ids are two random bytes: nothing makes them unique, and the server acks every frame with the id it carried.
+    # Bursts of frames with EQUAL ids: on an established wormhole, queued before the peer, queued during an outage
+    col = [["msgid_collide", 1.0]]
+    sends = [["api", 0, "send", "%02x" % i] for i in range(4)]
+    out.append(dict(ops=col + both + sends + [["pump"], ["api", 0, "close"], ["pump"], ["svc_stopped", 0], ["finish"]], npeers=1,
+                    profile="conn:equal-msgids:established"))
+    out.append(dict(ops=col + [["api", 0, "set_code", code]] + sends + [["open", 0], ["pump"], ["api", 1, "set_code", code], ["open", 1], ["pump"],
+                               ["api", 0, "close"], ["pump"], ["svc_stopped", 0], ["finish"]], npeers=1, profile="conn:equal-msgids:before-peer"))
+    out.append(dict(ops=both + col + [["drop", 0]] + sends + [["open", 0], ["pump"], ["api", 0, "close"], ["pump"], ["svc_stopped", 0], ["finish"]],
+                    npeers=1, profile="conn:equal-msgids:during-outage"))
     return out
 
 
